@@ -101,7 +101,10 @@ where
         framed.read_buffer_mut().clear();
         framed.send(req_adu).await?;
 
-        let res_adu = framed.next().await.ok_or_else(io::Error::last_os_error)??;
+        let res_adu = framed
+            .next()
+            .await
+            .unwrap_or_else(|| Err(io::Error::from(io::ErrorKind::BrokenPipe)))?;
         let ResponseAdu {
             hdr: res_hdr,
             pdu: res_pdu,
